@@ -781,14 +781,20 @@ LAMBDAS = (0.0, 1e-3, 0.1)
 
 
 def single_thread(f):
-    """tiny matrices: BLAS threads only cost time (seconds per solve on a busy machine)"""
+    """run/replay wrapper: (1) tiny matrices: BLAS threads only cost time (seconds per solve on a busy machine); (2) the library logs
+    every timing line to the file `log_sg` in the working directory (logging is no part of any contract): switched off meanwhile"""
     def g(*a, **k):
+        import logging
+        logging.disable(logging.CRITICAL)
         try:
-            from threadpoolctl import threadpool_limits
-        except Exception:  # pragma: no cover
-            return f(*a, **k)
-        with threadpool_limits(limits=1):
-            return f(*a, **k)
+            try:
+                from threadpoolctl import threadpool_limits
+            except Exception:  # pragma: no cover
+                return f(*a, **k)
+            with threadpool_limits(limits=1):
+                return f(*a, **k)
+        finally:
+            logging.disable(logging.NOTSET)
     g.__name__ = f.__name__
     return g
 
